@@ -95,14 +95,36 @@ def outer_chain(shape):
     return ">".join(out)
 
 
+# decimal literals that are numerically a small integer or a simple fraction: rules that look at the *value* of an operand (squared,
+# cubed, halves, ordinals, 'to the zero', inverse) still have to say the literal the author wrote
+SPECIAL_LITERALS = ["2.0", "3.0", "1.0", "0.0", "4.0", "10.0", "2.00", "0.5"]
+
+
+def n_slots(sh):
+    f = terms.Filler("num")
+    terms.build(sh, f)
+    return len(f.planted)
+
+
+def special_cases(shapes):
+    """(label, shape, k, literal): every special literal in every numeric slot of every shape"""
+    return [(f"{label}#{k}={lit}", sh, k, lit) for label, sh in shapes for k in range(n_slots(sh)) for lit in SPECIAL_LITERALS]
+
+
 def work(item):
     lang, style, verb, cases = item
     mc = mcx.worker_mc()
     mark = lattice.mark(lang)
     setup = [["rules_dir", mcx.RULES], ["pref", "TTS", "none"], ["pref", "Language", lang], ["pref", "SpeechStyle", style], ["pref", "Verbosity", verb]]
     built = []
-    for label, sh in cases:
-        f = terms.Filler("num", mark)
+    special = {}
+    for case in cases:
+        label, sh = case[0], case[1]
+        if len(case) == 4:
+            f = terms.SpecialFiller(case[2], case[3], mark)
+            special[label] = (case[2], case[3])
+        else:
+            f = terms.Filler("num", mark)
         t = terms.build(sh, f)
         built.append((label, sh, t, list(f.planted)))
     _, res = mc.run_cases(setup, [[["mathml", terms.doc(t)], ["speech"]] for _, _, t, _ in built])
@@ -133,6 +155,8 @@ def work(item):
             counts["rejected"] += 1
             continue
         replay = {"lang": lang, "style": style, "verbosity": verb, "label": label, "shape": sh}
+        if label in special:
+            replay["special"] = list(special[label])
         if not is_ok(r[1]):
             counts["speech_errors_left_to_C05_C15"] = counts.get("speech_errors_left_to_C05_C15", 0) + 1
             continue
@@ -142,7 +166,12 @@ def work(item):
         for k, lit in enumerate(planted):
             counts["literals_checked"] += 1
             got = occurrences(sp, lit, mark)
-            if got < need[lit]:
+            if (got < need[lit] and label in special and special[label][0] == k and site_of(sh, k) not in alone
+                    and not [a for a in parent_of(sh, k).split(">") if a in alone]):
+                # the special literal itself: the value-dependent wording of this slot; keyed by slot and literal
+                viol.append((f"C04|{lang}|{style}|missing@{site_of(sh, k)}|literal:{special[label][1]}",
+                             f"[{lang}/{style}/{verb}] {label}: literal {lit} (operand {site_of(sh, k)}) is not spoken: {sp!r}", replay))
+            elif got < need[lit]:
                 site = site_of(sh, k)
                 chain = parent_of(sh, k)
                 # a literal nested inside an operand slot that is never spoken even when its construct stands alone
@@ -165,7 +194,8 @@ def confirm(replay, verbose=False):
     mcx._worker_mc = mc
     try:
         sh = _tup(replay["shape"])
-        v, _, _ = work((replay["lang"], replay["style"], replay["verbosity"], [(replay["label"], sh)]))
+        case = (replay["label"], sh) + (tuple(replay["special"]) if replay.get("special") else ())
+        v, _, _ = work((replay["lang"], replay["style"], replay["verbosity"], [case]))
     finally:
         mcx._worker_mc = old
         mc.close()
@@ -187,6 +217,9 @@ def main(tier):
     run.count("terms_depth_le2", len(shapes))
     run.count("terms_depth3_core", len(deep))
     run.count("terms_depth4_core", len(deep4))
+    d1 = [(terms.shape_name(sh), sh) for sh in terms.spine_shapes(1)]
+    sp_cases = special_cases(shapes if tier == "thorough" else d1 + [(terms.shape_name(sh), sh) for sh in terms.spine_shapes(2, CORE12) if sh[2] is not None])
+    run.count("special_literal_cases", len(sp_cases))
     jobs = []
     for lang, style, verb in lattice.speech_configs():
         cs = list(shapes)
@@ -194,6 +227,7 @@ def main(tier):
             cs += deep
         if tier == "thorough" and (lang in ("en", "sv", "fi", "es")):
             cs += deep4
+        cs += sp_cases
         for i in range(0, len(cs), 700):
             jobs.append((lang, style, verb, cs[i:i + 700]))
     outs = []
@@ -215,7 +249,9 @@ def main(tier):
     return run.finish(
         rule="all spine terms of G (39 constructs) to depth 2 with a distinct decimal literal at every operand slot, in every shipped "
              "language x style x verbosity (45 configurations); depth-3 terms over a 12-construct core (quick: English; thorough: all); "
-             "thorough: depth-4 terms over the 6-construct core in en/sv/fi/es. distinct_nontrivial = distinct (configuration, speech string) pairs",
+             "thorough: depth-4 terms over the 6-construct core in en/sv/fi/es. Value-dependent wording: each of 8 decimal literals that are numerically a small "
+             "integer or a half (2.0 3.0 1.0 0.0 4.0 10.0 2.00 0.5) in every numeric slot of every construct alone and of the depth-2 terms over the core (thorough: of all depth-2 terms), other slots "
+             "as before, all configurations. distinct_nontrivial = distinct (configuration, speech string) pairs",
         assumptions=["'at least as often' instead of 'exactly': ClearSpeak legitimately repeats interval end points",
                      "identifiers are not checked textually (they are pronounced); the decidable core is the numeric literals"],
         confirm=confirm)
